@@ -323,7 +323,7 @@ func (w *World) runProbes(n *Node) {
 	}
 	k := w.tape.Range(1, 3)
 	start := w.tape.Choose(len(rows))
-	for i := 0; i < k && len(w.viols) == 0 && !w.fatal; i++ {
+	for i := 0; i < k && !w.ownViolation() && !w.fatal; i++ {
 		r := rows[(start+i)%len(rows)]
 		w.stats.Inc("probe.row." + r.name)
 		r.run(w, n)
